@@ -153,11 +153,15 @@ def impl_run(case):
         n = (x.shape[-1] + 1) // 2
         ipeak = r[0] if forced is None else np.float64(n - 1 + forced)
         rec["ipeak"], rec["n"] = ipeak, n
-        xr = np.rint(x)
-        rec["corr"] = {"exact": bool(np.all(x == xr)), "noise": float(np.max(np.abs(x - xr))) if x.size else 0.0,
-                       "argmax_rounded": int(np.argmax(xr)) if x.size else -1,
-                       "max": int(xr.max()) if x.size else 0, "sum": int(xr.sum()),
-                       "ties": int((xr == xr.max()).sum()) if x.size else 0, "len": int(x.shape[-1])}
+        try:      # instrumentation must never disturb the call
+            xf = np.asarray(x, dtype=np.float64)
+            xr = np.rint(xf)
+            rec["corr"] = {"exact": bool(np.all(xf == xr)), "noise": float(np.max(np.abs(xf - xr))) if xf.size else 0.0,
+                           "argmax_rounded": int(np.argmax(xr)) if xf.size else -1,
+                           "max": int(xr.max()) if xf.size else 0, "sum": int(xr.sum()),
+                           "ties": int((xr == xr.max()).sum()) if xf.size else 0, "len": int(xf.shape[-1])}
+        except Exception:      # noqa
+            rec["corr"] = None
         return ipeak, r[1]
 
     res = {"status": "ok"}
@@ -176,7 +180,7 @@ def impl_run(case):
     if "ipeak" in rec:
         # same float expression as the source: (parabolic_max(...)[0] - x.shape[0] + 1) * tbin
         res["delta"] = float((rec["ipeak"] - rec["n"] + 1) * tbin)
-        res["n"], res["corr"] = int(rec["n"]), rec["corr"]
+        res["n"], res["corr"] = int(rec["n"]), rec.get("corr")
     if "miss_mask" in rec and "used_b" in rec and int((~rec["miss_mask"]).sum()) == len(rec["used_b"]):
         ib1 = np.full(len(tsa), -1, dtype=np.int64)
         ib1[~rec["miss_mask"]] = rec["used_b"]
@@ -559,7 +563,7 @@ def run(ctx):
     # was not forced.  Conclusive when the model's delta_t equals the implementation's; then everything downstream is
     # compared from this run.  Otherwise (tie between lags under an FFT correlation, float-vs-exact binning) the case
     # falls back to stage A (model fed the implementation's delta_t).
-    freeb = [(ci, res) for ci, res in pending if cases[ci].get("forced_rel") is None and "n" in res]
+    freeb = [(ci, res) for ci, res in pending if cases[ci].get("forced_rel") is None and res.get("corr")]
     fin = [enc_input_full(cases[ci], res["n"]) for ci, res in freeb]
     fout = ext.run_many(fin, nproc=min(6, max(1, len(fin) // 30))) if fin else []
     ctx.measurements.setdefault('phase_s', {})['T_stageB_model'] = round(ctx.elapsed(), 1)
